@@ -8,7 +8,11 @@ package statefulset
 import (
 	"encoding/json"
 	"fmt"
+	kubeapps "k8s.io/api/apps/v1"
+	v1 "k8s.io/api/core/v1"
+	"k8s.io/client-go/util/workqueue"
 	"testing"
+	"time"
 
 	apps "github.com/pingcap/advanced-statefulset/client/apis/apps/v1"
 	metav1 "k8s.io/apimachinery/pkg/apis/meta/v1"
@@ -19,9 +23,21 @@ import (
 type hdCase struct {
 	OtherSet string `json:"other_set"` // none | nonmatching | invalidselector | matching
 	Owner    string `json:"pod_owner"` // none | set | stale-uid | other-kind
-	Event    string `json:"event"`     // add | update | update-samerv | delete | tombstone
+	Event    string `json:"event"`     // add | update | update-samerv | update-from-stale-owner | delete | tombstone | fail-16-times
 	Failure  string `json:"failure,omitempty"`
 	Queue    int    `json:"queue_len"`
+}
+
+type failingControl struct{}
+
+func (failingControl) UpdateStatefulSet(set *apps.StatefulSet, pods []*v1.Pod) error {
+	return fmt.Errorf("injected reconcile failure")
+}
+func (failingControl) ListRevisions(set *apps.StatefulSet) ([]*kubeapps.ControllerRevision, error) {
+	return nil, nil
+}
+func (failingControl) AdoptOrphanRevisions(set *apps.StatefulSet, revisions []*kubeapps.ControllerRevision) error {
+	return nil
 }
 
 func hdJudge(c *hdCase) string {
@@ -91,6 +107,41 @@ func hdJudge(c *hdCase) string {
 				}
 			}
 		}
+	case "update-from-stale-owner":
+		// the old controller reference does not resolve to any live set; the new state must still be handled
+		old := pod.DeepCopy()
+		old.OwnerReferences = []metav1.OwnerReference{{APIVersion: "apps/v1", Kind: "ReplicaSet", Name: "gone", UID: "gone", Controller: &tr}}
+		cur := pod.DeepCopy()
+		cur.ResourceVersion = "2"
+		ssc.updatePod(old, cur)
+		if controlled {
+			want[key(set)] = true
+		} else if c.Owner == "none" {
+			want[key(set)] = true
+			if c.OtherSet == "matching" {
+				want[key(other)] = true
+			}
+		}
+	case "fail-16-times":
+		// a reconcile that keeps failing must be put back every time (with backoff), never dropped
+		ssc.control = failingControl{}
+		ssc.queue = workqueue.NewNamedRateLimitingQueue(workqueue.NewItemExponentialFailureRateLimiter(time.Microsecond, 200*time.Microsecond), "replay")
+		spc.podsIndexer.Add(pod)
+		ssc.queue.Add(key(set))
+		for i := 0; i < 40; i++ {
+			deadline := time.Now().Add(2 * time.Second)
+			for ssc.queue.Len() == 0 && time.Now().Before(deadline) {
+				time.Sleep(200 * time.Microsecond)
+			}
+			if ssc.queue.Len() == 0 {
+				return fmt.Sprintf("after %d failed reconciles the set is no longer in the queue: the wake-up is lost", i)
+			}
+			ssc.processNextWorkItem()
+			if ssc.queue.NumRequeues(key(set)) != i+1 {
+				return fmt.Sprintf("after %d failed reconciles NumRequeues=%d: the failing set was not put back with backoff", i+1, ssc.queue.NumRequeues(key(set)))
+			}
+		}
+		return ""
 	case "delete":
 		ssc.deletePod(pod)
 		if controlled {
@@ -127,7 +178,7 @@ func TestReplayHandlers(t *testing.T) {
 	seen := map[string]bool{}
 	for _, other := range []string{"none", "nonmatching", "invalidselector", "matching"} {
 		for _, owner := range []string{"none", "set", "stale-uid", "other-kind"} {
-			for _, ev := range []string{"add", "update", "update-samerv", "delete", "tombstone"} {
+			for _, ev := range []string{"add", "update", "update-samerv", "update-from-stale-owner", "delete", "tombstone", "fail-16-times"} {
 				if found >= 3 {
 					break
 				}
@@ -145,6 +196,6 @@ func TestReplayHandlers(t *testing.T) {
 		}
 	}
 	if found == 0 {
-		fmt.Println("NOT-REPRODUCED bounded search: 4 set populations x 4 owner shapes x 5 event shapes on addPod/updatePod/deletePod")
+		fmt.Println("NOT-REPRODUCED bounded search: 4 set populations x 4 owner shapes x 7 event shapes on addPod/updatePod/deletePod")
 	}
 }
